@@ -665,14 +665,24 @@ pub fn c07(cx: &Ctx, v: &mut Vec<Violation>) {
     }
 }
 
-/// number of open hidden parentheses (of %str/%nrstr) before token i
+/// Is token i certainly %str/%nrstr text? True when a hidden '(' of %str/%nrstr is open before
+/// token i and no macro call or macro statement token occurred since it was opened (those push
+/// their own lexer modes, in which %-quotes are documented not to be handled). Returns the
+/// nesting depth (0 = not certainly %str text).
 pub fn str_call_depth_at(d: &Dump, i: usize) -> i32 {
     let mut open = 0i32;
+    let mut pure = true;
     for t in &d.toks[..i] {
-        if t.ch == Ch::HIDDEN && t.t == T::LPAREN && !t.empty() { open += 1; }
-        if t.ch == Ch::HIDDEN && t.t == T::RPAREN && open > 0 { open -= 1; }
+        if t.ch == Ch::HIDDEN && t.t == T::LPAREN && !t.empty() {
+            open += 1;
+            if open == 1 { pure = true; }
+        } else if t.ch == Ch::HIDDEN && t.t == T::RPAREN && open > 0 {
+            open -= 1;
+        } else if open > 0 && (t.t == T::MacroIdentifier || (is_kwm(t.t) && !matches!(t.t, T::KwmStr | T::KwmNrStr))) {
+            pure = false;
+        }
     }
-    open
+    if pure { open } else { 0 }
 }
 
 /// C08: numeric payloads (DESIGN 4.4)
